@@ -28,6 +28,9 @@ def run(ctx, rep):
     _codecs.fresh_output_files(F, rep, "C18.fresh-file", ["compiler", "bytecode_dev_transpiler"], 2)
     from props import _strunits
     source_name_is_a_whole_suffix(F, rep)
+    # `execute --transpile X.transpiled.mmm` runs the same module `run X.ms` runs only if the transpiled file is entered under the spelling imports use (C11's clause)
+    from props import C11 as _c11
+    _c11.entry_is_spelled_like_an_import(ctx, rep, rule="C18.entry-spelling")
     records_in_order(F, rep)
     _strunits.unit_mix(F, rep, "C18.index-unit", ["bytecode_dev_transpiler", "compiler"])
     rep.assume("a character not compared against any constant by the reader behaves like the class representative")
